@@ -27,7 +27,7 @@ impl Mutator for OffByOneMutator {
     }
 
     fn mutate_int(&self, value: i32, source: &mut GenerationSource, rate: f64) -> Option<i32> {
-        if source.gen_f64() > rate {
+        if !source.should_mutate(rate) {
             return None;
         }
         if source.gen_bool() {
@@ -38,7 +38,7 @@ impl Mutator for OffByOneMutator {
     }
 
     fn mutate_long(&self, value: i64, source: &mut GenerationSource, rate: f64) -> Option<i64> {
-        if source.gen_f64() > rate {
+        if !source.should_mutate(rate) {
             return None;
         }
         if source.gen_bool() {
@@ -54,7 +54,7 @@ impl Mutator for OffByOneMutator {
         source: &mut GenerationSource,
         rate: f64,
     ) -> Option<usize> {
-        if source.gen_f64() > rate {
+        if !source.should_mutate(rate) {
             return None;
         }
         if source.gen_bool() {
